@@ -17,7 +17,7 @@ PROPERTY_MACHINES = {
     "C04": ["c04"],
     "C16": ["c16"],
     "C17": ["c17"],
-    "C18": ["c18"],
+    "C18": ["c18", "c18m"],
     "C20": ["c20"],
 }
 
@@ -213,7 +213,8 @@ def cmd_check(args):
         classes = collections.OrderedDict()
         for rec in tot["violations"]:
             k = core.class_key(rec["violation"], known)
-            key = (k[0], k[1], rec["violation"]["cls"].get("family"))
+            # one class per known finding (its signature already says what it is); unknown violations per family
+            key = (k[0], k[1], rec["violation"]["cls"].get("family") if k[1] is None else "*")
             cur = classes.get(key)
             if cur is None or len(rec["history"].get("ops", [])) < len(cur["history"].get("ops", [])):
                 classes[key] = rec
